@@ -85,7 +85,9 @@ def harness(E, ctx, aux, desc):
 def jobs(tier):
     from vf.props.C14 import edit_step_jobs
 
-    return s1_jobs(tier, harness) + edit_step_jobs("paths") + front_end_jobs(tier, harness)
+    js = s1_jobs(tier, harness) + edit_step_jobs("paths") + front_end_jobs(tier, harness)
+    js.sort(key=lambda j: "S1-N5" in j.name)  # the large job last (stable)
+    return js
 
 
 def replay(desc):
